@@ -98,7 +98,7 @@ def handleC04 : Handler := fun args =>
   | ["c04", hs, df, a0, callers, steps, stream] =>
     match parseNatList hs, df.toNat?, parseNatList a0, parseNatList callers, parseSteps steps, parseStream stream with
     | some hs, some df, some a0, some callers, some steps, some s =>
-      let cfg : Cfg := ⟨hs, df != 0⟩
+      let cfg : Cfg := { handlers := hs, hasDefault := df != 0 }
       let r := rd cfg (envOf steps) a0 s
       let cancelled := steps.flatMap (·.unreg)
       s!"hdrs={dash (showHdrs r 0)} deliv={dash (showDeliv r.deliveries 0)} unh={dash (",".intercalate (r.unhandled.map toString))} callers={dash (showCallers r cancelled callers)} fin={showEnd r.fin}"
